@@ -44,10 +44,23 @@ def main():
         traceback.print_exc()
         print('MACHINERY-FAILURE %s' % a.pid, flush=True)
         return 2
-    return ctx.finish()
+    rc = ctx.finish()
+    try:
+        replay.stop_workers()
+    except Exception:
+        pass
+    return rc
 
 
 if __name__ == '__main__':
-    rc = main()
-    sys.stdout.flush()
-    os._exit(rc)
+    rc = 2
+    try:
+        rc = main()
+    finally:
+        try:
+            from lib import replay as _r
+            _r.stop_workers()
+        except Exception:
+            pass
+        sys.stdout.flush()
+        os._exit(rc)
